@@ -144,7 +144,13 @@ pub fn gen_stack(
         let can_cc = allow_cc && crate::dev::down_kind(kind) != kind;
         let choice = src.draw(if can_cc { 4 } else { 3 });
         let ad = match choice {
-            0 => Ad::Translated([src.sym(scale.min(20)), src.sym(scale.min(20))]),
+            0 => {
+                if src.draw(16) == 15 {
+                    Ad::Translated([src.sym(40000), src.sym(40000)])
+                } else {
+                    Ad::Translated([src.sym(scale.min(20)), src.sym(scale.min(20))])
+                }
+            }
             1 => Ad::Clipped(gen_rect_rel(src, &b, scale)),
             2 => {
                 let mut a = gen_rect_rel(src, &b, scale);
